@@ -422,4 +422,73 @@ theorem specExec_last_indep (y : Syms) (tr : List (Nat × Bool)) (v w : Nat) (l 
   | cons s rest => by_cases hf : s.fails = true <;> simp [specExec, hf]
 
 
+/-! ### definitions only grow (used for the host-supplied names) -/
+
+theorem add_defined_mono (y : Syms) (s : Stmt) (n : Nat) (h : y.defined n = true) :
+    (y.add s).defined n = true := by
+  simp only [Syms.defined, Syms.add, Bool.or_eq_true, List.contains_eq_mem, List.mem_append,
+    decide_eq_true_eq] at h ⊢
+  rcases h with h | h
+  · exact Or.inl (Or.inl h)
+  · exact Or.inr (Or.inl h)
+
+theorem specExec_defined_mono (l : List Stmt) : ∀ (y : Syms) (tr : List (Nat × Bool)) (v n : Nat),
+    y.defined n = true → (specExec y tr v l).syms.defined n = true := by
+  induction l with
+  | nil => intro y tr v n h; exact h
+  | cons s rest ih =>
+    intro y tr v n h
+    by_cases hf : s.fails = true
+    · simp only [specExec, hf, ↓reduceIte]; exact h
+    · simp only [specExec, hf, Bool.false_eq_true, ↓reduceIte]
+      exact ih _ _ _ _ (add_defined_mono y s n h)
+
+theorem spec_feed_defined_mono (st : SpecSt) (p : Piece) (n : Nat) (h : st.syms.defined n = true) :
+    (st.feed p).1.syms.defined n = true := by
+  cases p with
+  | bad => exact h
+  | stmts l =>
+    by_cases hr : allResolve st.syms l = true
+    · simp only [SpecSt.feed, hr, ↓reduceIte]
+      exact specExec_defined_mono l _ _ _ _ h
+    · simp only [SpecSt.feed, hr, Bool.false_eq_true, ↓reduceIte]; exact h
+
+theorem spec_run_defined_mono (h : List Piece) : ∀ (st : SpecSt) (n : Nat),
+    st.syms.defined n = true → (st.run h).1.syms.defined n = true := by
+  induction h with
+  | nil => intro st n hd; exact hd
+  | cons p ps ih =>
+    intro st n hd
+    simp only [SpecSt.run]
+    exact ih _ _ (spec_feed_defined_mono st p n hd)
+
+theorem compileStmts_defined_mono (l : List Stmt) : ∀ (y : Syms) (n : Nat),
+    y.defined n = true → (compileStmts y l).syms.defined n = true := by
+  induction l with
+  | nil => intro y n h; exact h
+  | cons s rest ih =>
+    intro y n h
+    by_cases hr : s.resolves y = true
+    · simp only [compileStmts, hr, ↓reduceIte]
+      exact ih _ _ (add_defined_mono y s n h)
+    · simp only [compileStmts, hr, Bool.false_eq_true, ↓reduceIte]; exact h
+
+theorem repl_feed_defined_mono (r : Repl) (p : Piece) (n : Nat) (h : r.comp.syms.defined n = true) :
+    (r.feed p).1.comp.syms.defined n = true := by
+  cases p with
+  | bad => exact h
+  | stmts l =>
+    have hc := compileStmts_defined_mono l r.comp.syms n h
+    simp only [Repl.feed]
+    split <;> exact hc
+
+theorem repl_run_defined_mono (h : List Piece) : ∀ (r : Repl) (n : Nat),
+    r.comp.syms.defined n = true → (r.run h).1.comp.syms.defined n = true := by
+  induction h with
+  | nil => intro r n hd; exact hd
+  | cons p ps ih =>
+    intro r n hd
+    simp only [Repl.run]
+    exact ih _ _ (repl_feed_defined_mono r p n hd)
+
 end Risor.C18
